@@ -156,5 +156,6 @@ def exch_at_clock_instants(ctx, rule):
             ps = summarise(ctx, fn, policy=own, oracle=val)
             res = {val.evalbool(p.value) if p.outcome == 'return' else 'raise' for p in ps}
             got[(h, mi, wd)] = res
-            ctx.require(res == {exp} if None not in res else None, rule, 'exchange is %s at the clock instant %02d:%02d (weekday %d)' % ('open' if exp else 'closed', h, mi, wd),
+            # (several outcomes because a test could not be decided from the instant alone - which weekdays a stored session object trades on, say: left open)
+            ctx.require(res == {exp} if (None not in res and not (len(res) > 1 and val.unknown)) else None, rule, 'exchange is %s at the clock instant %02d:%02d (weekday %d)' % ('open' if exp else 'closed', h, mi, wd),
                         fn.site(), str(res), key='%s|clock-instant|%02d%02d' % (rule, h, mi))
